@@ -254,7 +254,7 @@ func rulePU4() Rule {
 							}
 						case *ast.CompositeLit:
 							// an ExecEnv literal outside NewExecEnv bypasses the constructor's invariants
-							if namedTypeName(info.Types[x].Type) == "interp.ExecEnv" && f.Root().Name != "interp.NewExecEnv" {
+							if namedTypeName(info.Types[x].Type) == "interp.ExecEnv" && f.Root().Name != "interp.NewExecEnv" && !c.inRegion("interp.NewExecEnv", f) {
 								rr.Bad(f, f.Name+"|ExecEnv{…}", x.Pos(), "an ExecEnv is built outside NewExecEnv")
 							}
 						}
